@@ -270,6 +270,9 @@ def records(family, rules, bs, leaf):
     _, v, n = st
     out = []
     for r in rules:
+        if r.kind == "one" and not r.vals:
+            out.append(ZERO)           # one<> (empty value list) is documented as equivalent to failure: no peek, never matches
+            continue
         d = v & r.mask if r.mask is not None else v
         acc = r.accepts(d)
         out.append((1 if acc else 0, n if acc else 0, n, abs(d), d < 0))
